@@ -164,7 +164,8 @@ class MessagePackDocument(HierDictDocument):
             try:
                 ctx.in_document = msgpack.unpackb(b''.join(ctx.in_string))
             except ValueError as e:
-                raise MessagePackDecodeError(' '.join(e.args))
+                # e.args need not be strings (see msgpack.ExtraData)
+                raise MessagePackDecodeError(' '.join(str(a) for a in e.args))
 
     def gen_method_request_string(self, ctx):
         """Uses information in context object to return a method_request_string.
